@@ -152,7 +152,7 @@ func (am *YAMLAccountManager) Update(account hotline.Account, newLogin string) e
 	}
 
 	// Replace the account file atomically: write a temporary file, then rename it over the final name.
-	accountPath := filepath.Join(am.accountDir, newLogin+".yaml")
+	accountPath := filepath.Join(am.accountDir, path.Join("/", newLogin)+".yaml")
 	if err := writeFileAtomic(am.accountDir, accountPath, out); err != nil {
 		return fmt.Errorf("error writing account file: %w", err)
 	}
